@@ -147,4 +147,11 @@ def vtestMethods : List (String × (Request → List Act)) :=
 
 def vtestIface (desc : String) : Iface := genIface vtestName desc vtestMethods
 
+def crlfName := "org.example.crlf"
+
+def crlfIface (desc : String) : Iface :=
+  genIface crlfName desc
+    [("org.example.crlf.Ping", genArm decTok fun _ t =>
+        [.reply (Reply.params (some (.obj [("token", .str t)])))])]
+
 end VV
